@@ -23,6 +23,7 @@ from __future__ import annotations
 import random
 from typing import Any
 
+from models.lifecycle import FINALS
 from workloads import simtasks
 from workloads.deploy import Deployment
 
@@ -51,7 +52,7 @@ ASSUMPTIONS = [
 ]
 REAL = ["BaseOrchestrator.get_invocations_to_run / route_call / route_calls", "Mem/SQLite orchestrators (argument index)", "ThreadRunner loop", "DistributedInvocation.run", "Task.parallelize", "BaseTrigger.execute_task", "SQLite engine"]
 STUBBED = ["thread / process scheduling", "clock", "uuid4", "busy handler"]
-PROBES = ["blocked_final", "blocked_rerouted", "same_key_pairs", "two_pollers_same_key", "retry_blocked", "batch_path_used"]
+PROBES = ["blocked_final", "blocked_rerouted", "same_key_pairs", "two_pollers_same_key", "retry_blocked", "batch_path_used", "auto_purge_calls"]
 
 
 def plan(tier: str) -> list[dict]:
@@ -100,7 +101,13 @@ def run(seed: int, params: dict, replay: dict | None = None) -> dict:
     if mode == "KEYS":
         opts["key_arguments"] = key_args
     viol: list[dict] = []
-    with Deployment(seed, stack, n_runners, policy=policy, policy_arg=parg, schedule=schedule, max_steps=150_000, max_time=60.0, conf={"max_threads": slots}) as d:
+    # housekeeping in some runs: finished invocations are purged almost at once by an operator thread that calls the
+    # public auto_purge() while same-key work is still running (the purge must not disturb the concurrency index)
+    purging = rng.random() < 0.3
+    conf: dict[str, Any] = {"max_threads": slots}
+    if purging:
+        conf["auto_final_invocation_purge_hours"] = 1e-5  # 36 virtual ms
+    with Deployment(seed, stack, n_runners, policy=policy, policy_arg=parg, schedule=schedule, max_steps=150_000, max_time=60.0, conf=conf) as d:
         sim = d.sim
         d.register(simtasks.keyed2, **opts)
         # the non-batch parallelize path needs its own task object options: same function, batch size 0
@@ -158,10 +165,35 @@ def run(seed: int, params: dict, replay: dict | None = None) -> dict:
                     i += 1
                 if rng.random() < 0.3:
                     sim.sleep(rng.choice([0.005, 0.03]))
-            d.wait_final("c", list(info), timeout=20.0)
+            if purging:
+                # purged records cannot be read back: completion is read from the transition log
+                t_end = sim.now + 20.0
+                while sim.now < t_end:
+                    last: dict[str, str] = {}
+                    for e in sorted(d.w.tlog, key=lambda e: (e["ts"], e["seq"])):
+                        last[e["inv"]] = e["status"]
+                    if all(last.get(i) in FINALS for i in info):
+                        break
+                    sim.sleep(0.05)
+            else:
+                d.wait_final("c", list(info), timeout=20.0)
+            state["done"] = True
             d.stop_runners()
 
-        d.run({"c": client})
+        state = {"done": False}
+
+        def purger() -> None:
+            app = d.app("c")
+            while not state["done"]:
+                sim.sleep(0.03)
+                try:
+                    app.orchestrator.auto_purge()
+                    sim.bump("probe.auto_purge_calls")
+                except Exception as e:  # noqa: BLE001
+                    d.w.observe("purge-raised", f"{type(e).__name__}: {e}")
+                    return
+
+        d.run({"c": client}, extra=[("c", "purger", purger)] if purging else None)
         w = d.w
         common = w.result_common()
         st = common["stats"]
